@@ -1468,9 +1468,7 @@ class TextSuite(common.Suite):
             return "model driver error: %s" % model["err"]
         if "types" in b:
             b["types"] = sorted(b["types"], key=lambda x: x[0])
-        f = b.get("file")
-        if b.get("res") == "invalid" and isinstance(f, int) and f < len(case["defs"]) and case["defs"][f].get("unload"):
-            b["res"] = "internal"  # DSDLDefinition.read wraps whatever loading the text raises (catch-all) into InternalError with its own path
+        # (an unloadable definition file is an InvalidDefinitionError naming the file since /repo 6ded0dc: no mapping needed)
         if a == b:
             return None
         for k in KEYS:
